@@ -22,6 +22,7 @@ import (
 	"fmt"
 	"go/token"
 	"go/types"
+	"strings"
 )
 
 type segCall struct {
@@ -351,6 +352,15 @@ func c02model(c *Ctx, a *c02) {
 		c.Unk("C02.R2", "geom#point-in-polygon(combination)", pos, "%s", unk)
 	} else {
 		report3(c, "C02.R1", "geom#point-in-polygon(coverage)", pos, covMsg, "", "both segment predicates are asked about exactly the segments of every closed ring of every member, once each")
+		// C02.R3: the pre-filter skips nothing it must not — the same runs, on the rings whose box
+		// the query point only touches or enters only thanks to the last vertex of an unclosed ring
+		boxMsg := ""
+		for _, msg := range []string{covMsg, edgeMsg, parMsg} {
+			if strings.Contains(msg, "ring's box") || strings.Contains(msg, "extends the box") {
+				boxMsg = msg
+			}
+		}
+		report3(c, "C02.R3", "geom#point-in-polygon(prefilter)", pos, boxMsg, "", "with the query point on the left or top border of a ring's box, or inside the box only thanks to the last vertex of an unclosed ring, every segment is still asked and the results are those of the full scan")
 		m2 := edgeMsg
 		if m2 == "" {
 			m2 = parMsg
